@@ -11,6 +11,8 @@ pub const KS: u64 = (1 << 24) - 1;
 struct Ctx {
     pool: [u64; 5],
     fresh: u64,
+    /// the history contains transactions in executed form (non-default malleable fields)
+    executed: bool,
 }
 
 fn val(rng: &mut Rng, cx: &mut Ctx, ks: usize) -> u64 {
@@ -55,7 +57,11 @@ fn tx(rng: &mut Rng, cx: &mut Ctx, fresh_heavy: bool) -> T {
             _ => T::l(vec![T::i(4)]),
         });
     }
-    T::l(vec![T::n(script), T::l(inputs), T::l(outputs)])
+    if cx.executed && rng.chance(1, 2) {
+        T::l(vec![T::n(script), T::l(inputs), T::l(outputs), T::n(1 + rng.below(3))])
+    } else {
+        T::l(vec![T::n(script), T::l(inputs), T::l(outputs)])
+    }
 }
 
 fn block(height: u64, time: u64, txs: Vec<T>, mint_contract: u64, mint_asset: u64) -> T {
@@ -86,11 +92,11 @@ fn cursor_key(rng: &mut Rng) -> u64 {
 fn random_case(rng: &mut Rng, thorough: bool) -> T {
     let r = *rng.pick(&[0u64, 1, 3, 10, 50]);
     let nanos = *rng.pick(&[0u64, 0, 1, 999_999_999]);
-    let mut cx = Ctx { pool: [0; 5], fresh: 100 };
+    let mut cx = Ctx { pool: [0; 5], fresh: 100, executed: rng.chance(1, 8) };
     for k in 0..5 {
         cx.pool[k] = 1 + rng.below(4);
     }
-    let nblocks = if thorough { rng.range(2, 25) } else { rng.range(2, 9) };
+    let nblocks = if thorough { rng.range(2, 16) } else { rng.range(2, 9) };
     let mut time = *rng.pick(&[0u64, 5, 1000, 1 << 40]);
     let bad_block = if rng.chance(1, 10) { Some(rng.below(nblocks)) } else { None };
     let mut ops = vec![];
@@ -115,7 +121,7 @@ fn random_case(rng: &mut Rng, thorough: bool) -> T {
         let big = rng.chance(1, 12);
         let ntx = if big {
             if thorough {
-                rng.range(30, 110)
+                rng.range(20, 60)
             } else {
                 rng.range(8, 22)
             }
@@ -125,7 +131,18 @@ fn random_case(rng: &mut Rng, thorough: bool) -> T {
         let txs: Vec<T> = (0..ntx).map(|_| tx(rng, &mut cx, big)).collect();
         let mc = val(rng, &mut cx, 2);
         let ma = val(rng, &mut cx, 1);
-        ops.push(block(b + 1, t, txs, mc, ma));
+        if cx.executed && rng.chance(1, 3) {
+            let mm = 1 + rng.below(3);
+            ops.push(T::l(vec![
+                T::i(0),
+                T::n(b + 1),
+                T::n(t),
+                T::l(txs),
+                T::l(vec![T::n(mc), T::n(ma), T::n(mm)]),
+            ]));
+        } else {
+            ops.push(block(b + 1, t, txs, mc, ma));
+        }
     }
     T::l(vec![T::n(r), T::n(nanos), T::l(ops)])
 }
@@ -202,14 +219,73 @@ fn directed() -> Vec<T> {
             block(3, 8, vec![tx_out(2, &[(1, 1)])], 1, 1),
         ],
     ));
+    // executed form: malleable fields (receipts root, contract input roots / utxo id / tx pointer, change
+    // amount, variable output, contract output roots, mint contract roots) are dropped by compression:
+    // the decompressed transactions have the same ids but are not equal (known finding K-C33-malleable)
+    v.push(case(
+        10,
+        vec![
+            block(1, 100, vec![tx_out(1, &[(1, 1)])], 1, 1),
+            T::l(vec![
+                T::i(0),
+                T::n(2u64),
+                T::n(101u64),
+                T::l(vec![T::l(vec![
+                    T::n(1u64),
+                    T::l(vec![T::l(vec![T::i(0), T::n(1u64)])]),
+                    T::l(vec![
+                        T::l(vec![T::i(1), T::n(1u64), T::n(1u64)]),
+                        T::l(vec![T::i(3)]),
+                        T::l(vec![T::i(4)]),
+                    ]),
+                    T::n(2u64),
+                ])]),
+                T::l(vec![T::n(1u64), T::n(1u64), T::n(3u64)]),
+            ]),
+            block(3, 102, vec![tx_out(1, &[(1, 1)])], 1, 1),
+        ],
+    ));
     // only default values
     v.push(case(3, vec![block(1, 1, vec![tx_out(0, &[(0, 0)])], 0, 0), block(2, 2, vec![], 0, 0)]));
+    v
+}
+
+/// bounded-exhaustive family (thorough tier): three blocks over one keyspace, every choice of two
+/// addresses per block from five pairs, every pair of time deltas from {0, r, r+1}, with and
+/// without the cursor put back onto the live keys before the second block
+fn exhaustive() -> Vec<T> {
+    let r = 2u64;
+    let pairs: [(u64, u64); 5] = [(1, 1), (1, 2), (2, 1), (0, 1), (2, 3)];
+    let deltas = [0u64, r, r + 1];
+    let mut v = vec![];
+    for p1 in pairs {
+        for p2 in pairs {
+            for p3 in pairs {
+                for d2 in deltas {
+                    for d3 in deltas {
+                        for preset in 0..2 {
+                            let mut ops = vec![block(1, 10, vec![tx_out(1, &[(p1.0, 1), (p1.1, 1)])], 1, 1)];
+                            if preset == 1 {
+                                ops.push(cursor(0, KS - 1));
+                            }
+                            ops.push(block(2, 10 + d2, vec![tx_out(1, &[(p2.0, 1), (p2.1, 1)])], 1, 1));
+                            ops.push(block(3, 10 + d2 + d3, vec![tx_out(1, &[(p3.0, 1), (p3.1, 1)])], 1, 1));
+                            v.push(T::l(vec![T::n(r), T::n(0u64), T::l(ops)]));
+                        }
+                    }
+                }
+            }
+        }
+    }
     v
 }
 
 pub fn gen(rng: &mut Rng, n: u64, tier: &str) -> Vec<T> {
     let thorough = tier == "thorough";
     let mut cases = directed();
+    if thorough {
+        cases.extend(exhaustive());
+    }
     while (cases.len() as u64) < n {
         cases.push(random_case(rng, thorough));
     }
